@@ -189,3 +189,17 @@ def bounded_sharded_iterable(p):
           if pos < len(exp[i]):
             next(it)
   return S.result()
+
+
+def replay_sharded_iterable(p):
+  """Replays a counterexample of ShardedIterable.shard: sub-shard i of n of the shard (a mod m) of range(N) must be every
+  n-th element of that shard, starting with its i-th."""
+  w = p['witness']
+  a, m, i, n = (w.get(k) for k in ('a', 'm', 'i', 'n'))
+  if not all(isinstance(x, int) for x in (a, m, i, n)) or not (1 <= m <= 12 and 1 <= n <= 12 and 0 <= a < m and 0 <= i < n):
+    return dict(violated=False, detail='witness outside the replayable domain (not a constructible shard)')
+  N = 4 * m * n + 3
+  parent = io.ShardedIterable(range(N)).from_state(io.ShardConfig(a, m))
+  got = list(parent.shard(i, n))
+  exp = list(parent)[i::n]
+  return dict(violated=got != exp, detail=f'shard({i},{n}) of the shard ({a} mod {m}) of range({N}) = {got[:12]}..., expected {exp[:12]}...')
